@@ -53,14 +53,17 @@ Tw(Q) == TwistM(F12, 1, Q)
 LineV(P1, P2, T) == Line(C12, P1, P2, T)
 
 AteBits == Bits(Ate)                       \* LSB first; the top bit is implicit (R starts at Q)
+\* one iteration of the Miller loop (bit AteBits[k]) from the loop state (f, R): the STEP of the loop as a relation
+MStep(k, f, R, Q, P) ==
+  LET f1 == Mul(F12, Sqr(F12, f), LineV(R, R, P))
+      R1 == PDouble(C12, R)
+  IN IF AteBits[k] = 1
+     THEN <<Mul(F12, f1, LineV(R1, Q, P)), PAdd(C12, R1, Q)>>
+     ELSE <<f1, R1>>
 RECURSIVE MLoop(_, _, _, _, _)
 MLoop(k, f, R, Q, P) ==
   IF k < 1 THEN <<f, R>>
-  ELSE LET f1 == Mul(F12, Sqr(F12, f), LineV(R, R, P))
-           R1 == PDouble(C12, R)
-       IN IF AteBits[k] = 1
-          THEN MLoop(k - 1, Mul(F12, f1, LineV(R1, Q, P)), PAdd(C12, R1, Q), Q, P)
-          ELSE MLoop(k - 1, f1, R1, Q, P)
+  ELSE LET s == MStep(k, f, R, Q, P) IN MLoop(k - 1, s[1], s[2], Q, P)
 Frob(x) == Pow(F12, x, TP)
 Miller(Q, P) ==
   IF Q = INF \/ P = INF THEN One(F12)
@@ -79,6 +82,27 @@ RowOK(r) ==
     [] r.op = "fe"   -> r.r = FinalExp(r.x)                 \* final_exponentiate(x) for an arbitrary element
     [] r.op = "frob" -> r.r = Frob(r.x)
     [] OTHER -> FALSE
+
+(***************************************************************************)
+(* Step-level conformance of the two Miller loops (reported, not a         *)
+(* violation: another correct loop is not a defect).  The recorder takes   *)
+(* the loop state at every evaluation of the `for` line of miller_loop     *)
+(* (reference: f, R; optimized: f_num, f_den, twist_R) with sys.settrace;  *)
+(* the abstraction is f = f_num / f_den and the affine point of R.  Every  *)
+(* recorded transition must be MStep from the RECORDED predecessor, the    *)
+(* loop starts in (1, Q), runs once per bit below the top bit of T, and R  *)
+(* is the multiple of Q by the bits consumed so far (loop invariant).      *)
+(***************************************************************************)
+MAbs(s) == <<Div(F12, s.f, s.fd), ProjToAff(C12, s.R)>>
+RowModelOK(r) ==
+  LET n == Len(AteBits) - 1
+      Q == Tw(SM2(r.b))
+      P == Cast(SM1(r.a))
+      s == r.states
+  IN /\ Len(s) = n + 1
+     /\ MAbs(s[1]) = <<One(F12), Q>>
+     /\ \A j \in 1..n : LET a == MAbs(s[j]) IN MAbs(s[j + 1]) = MStep(n + 1 - j, a[1], a[2], Q, P)
+     /\ \A j \in 0..n : MAbs(s[j + 1])[2] = MulBits(C12, Q, Bits(Ate \div (2 ^ (n - j))))
 
 Premises ==
   /\ IsPrime(TP) /\ IsPrime(TR) /\ TP % 4 = 3 /\ EQuot.r = 0
@@ -104,4 +128,5 @@ Next == \/ i = 0 /\ i' \in 1..(IF Stride < Len(Rows) THEN Stride ELSE Len(Rows))
 Spec == Init /\ [][Next]_i
 PremisesOK == i = 0 => Premises /\ SpecTheorems
 RowsOK == i > 0 => (Rows[i].exc = "" /\ RowOK(Rows[i]))
+ModelOK == i > 0 => (Rows[i].exc = "" => RowModelOK(Rows[i]))
 =============================================================================
